@@ -2,14 +2,18 @@ use crate::harness::Config;
 
 pub mod c01;
 pub mod c02;
+pub mod c03;
 pub mod c12;
+pub mod c14;
 pub mod textgen;
 
 pub fn dispatch(id: &str, cfg: Config) -> i32 {
     match id {
         "C01" => crate::run_prop(c01::C01, cfg),
         "C02" => crate::run_prop(c02::C02, cfg),
+        "C03" => crate::run_prop(c03::C03, cfg),
         "C12" => crate::run_prop(c12::C12, cfg),
+        "C14" => crate::run_prop(c14::C14, cfg),
         _ => {
             eprintln!("unknown property {}", id);
             2
